@@ -326,6 +326,9 @@ impl Task {
     pub unsafe fn drop(&self) {
         instrument!(compio_log::Level::TRACE, "Task::drop", id = ?self.header().id);
 
+        #[cfg(compio_verif)]
+        crate::verif::sched_point(crate::verif::TASK_DROP);
+
         let header = self.header();
         debug_assert!(
             header.tracker.valid(),
